@@ -37,112 +37,11 @@ func typedCfgs() []gen.LCfg {
 
 // ---- name model ----
 
-type nameUse struct {
-	name   string
-	span   gen.Span
-	origin int    // index of the declaration whose origin contains the use, −1 = statement
-	where  string // construct containing the use
-}
+type nameUse = gen.NameUse
+type nameDecl = gen.NameDecl
 
-type nameDecl struct {
-	name string
-	span gen.Span
-}
-
-func collectNames(sc *gen.Script, p *gen.Printed) (decls []nameDecl, uses []nameUse) {
-	for _, d := range sc.Vars {
-		sp, _ := p.SpanOf(d, "name")
-		decls = append(decls, nameDecl{d.Name, sp})
-	}
-	var expr func(e gen.Expr, origin int, where string)
-	expr = func(e gen.Expr, origin int, where string) {
-		switch e := e.(type) {
-		case *gen.Var:
-			sp, _ := p.SpanOf(e, "")
-			uses = append(uses, nameUse{e.Name, sp, origin, where})
-		case *gen.Mon:
-			expr(e.Asset, origin, where+">monetary.asset")
-			expr(e.Amount, origin, where+">monetary.amount")
-		case *gen.Infix:
-			expr(e.L, origin, where+">infix.left")
-			expr(e.R, origin, where+">infix.right")
-		}
-	}
-	allot := func(a gen.Allot, where string) {
-		if v, ok := a.(*gen.AllotVar); ok {
-			expr(v.V, -1, where+">portion")
-		}
-	}
-	var src func(s gen.Source, where string)
-	src = func(s gen.Source, where string) {
-		switch s := s.(type) {
-		case *gen.SrcAccount:
-			expr(s.E, -1, where+">account")
-		case *gen.SrcOverdraft:
-			expr(s.Addr, -1, where+">overdraft.address")
-			if s.Bounded != nil {
-				expr(s.Bounded, -1, where+">overdraft.bound")
-			}
-		case *gen.SrcInorder:
-			for _, x := range s.Srcs {
-				src(x, where+">inorder")
-			}
-		case *gen.SrcAllot:
-			for _, it := range s.Items {
-				allot(it.A, where+">allot")
-				src(it.From, where+">allot")
-			}
-		case *gen.SrcCapped:
-			expr(s.Cap, -1, where+">cap")
-			src(s.From, where+">capped")
-		}
-	}
-	var dst func(d gen.Dest, where string)
-	kod := func(k *gen.KOD, where string) {
-		if k != nil && !k.Kept {
-			dst(k.To, where)
-		}
-	}
-	dst = func(d gen.Dest, where string) {
-		switch d := d.(type) {
-		case *gen.DstAccount:
-			expr(d.E, -1, where+">account")
-		case *gen.DstInorder:
-			for _, cl := range d.Clauses {
-				expr(cl.Cap, -1, where+">inorder.cap")
-				kod(cl.To, where+">inorder")
-			}
-			kod(d.Remaining, where+">inorder.remaining")
-		case *gen.DstAllot:
-			for _, it := range d.Items {
-				allot(it.A, where+">allot")
-				kod(it.To, where+">allot")
-			}
-		}
-	}
-	for i, d := range sc.Vars {
-		if d.Origin != nil {
-			for _, a := range d.Origin.Args {
-				expr(a, i, "origin")
-			}
-		}
-	}
-	for _, st := range sc.Stmts {
-		switch st := st.(type) {
-		case *gen.Send:
-			expr(st.Sent.E, -1, "send.sent")
-			src(st.Src, "send.source")
-			dst(st.Dst, "send.destination")
-		case *gen.Save:
-			expr(st.Sent.E, -1, "save.sent")
-			expr(st.From, -1, "save.from")
-		case *gen.Call:
-			for _, a := range st.Args {
-				expr(a, -1, "call.arg")
-			}
-		}
-	}
-	return
+func collectNames(sc *gen.Script, p *gen.Printed) ([]nameDecl, []nameUse) {
+	return gen.CollectNames(sc, p)
 }
 
 func spanKey(s gen.Span) string {
@@ -155,24 +54,24 @@ func expectedNames(decls []nameDecl, uses []nameUse) (want []string, open map[st
 	open = map[string]bool{}
 	firstDecl := map[string]int{}
 	for i, d := range decls {
-		if _, ok := firstDecl[d.name]; ok {
-			want = append(want, "DuplicateVariable "+d.name+" "+spanKey(d.span))
+		if _, ok := firstDecl[d.Name]; ok {
+			want = append(want, "DuplicateVariable "+d.Name+" "+spanKey(d.Span))
 		} else {
-			firstDecl[d.name] = i
+			firstDecl[d.Name] = i
 		}
 	}
 	usedProperly := map[string]bool{}
 	usedEarly := map[string]bool{}
 	for _, u := range uses {
-		fd, declared := firstDecl[u.name]
+		fd, declared := firstDecl[u.Name]
 		switch {
 		case !declared:
-			want = append(want, "UnboundVariable "+u.name+" "+spanKey(u.span))
-		case u.origin >= 0 && fd > u.origin:
-			want = append(want, "UnboundVariable "+u.name+" "+spanKey(u.span))
-			usedEarly[u.name] = true
+			want = append(want, "UnboundVariable "+u.Name+" "+spanKey(u.Span))
+		case u.Origin >= 0 && fd > u.Origin:
+			want = append(want, "UnboundVariable "+u.Name+" "+spanKey(u.Span))
+			usedEarly[u.Name] = true
 		default:
-			usedProperly[u.name] = true
+			usedProperly[u.Name] = true
 		}
 	}
 	for name, i := range firstDecl {
@@ -183,7 +82,7 @@ func expectedNames(decls []nameDecl, uses []nameUse) (want []string, open map[st
 			open[name] = true
 			continue
 		}
-		want = append(want, "UnusedVar "+name+" "+spanKey(decls[i].span))
+		want = append(want, "UnusedVar "+name+" "+spanKey(decls[i].Span))
 	}
 	sort.Strings(want)
 	return
@@ -410,7 +309,7 @@ func runC16(c *fw.Ctx) {
 				}
 			}
 			for _, u := range uses {
-				c.Distinct(kind + "|" + u.where)
+				c.Distinct(kind + "|" + u.Where)
 			}
 			if c.WantSample() && i%43 == 6 {
 				c.Sample(map[string]any{"case": id, "mutation": kind, "text": pr2.Text, "expected_name_diagnostics": want})
